@@ -121,6 +121,24 @@ def fill_indicators(sv: SpecView, c: Cand):
 def classify(spec, c: Cand, sv=None):
     """VALID / INVALID / UNSPECIFIED for a generated candidate (every element of the spec)."""
     sv = sv or SpecView(spec)
+    opt_ops = sem.optional_operand_ids(spec)
+    if opt_ops and len(opt_ops) <= 4 and c.model is None:
+        # applied flags of optional operands are existential: VALID if some assignment works
+        best = None
+        for bits in itertools.product([False, True], repeat=len(opt_ops)):
+            c.applied_guess = dict(zip(opt_ops, bits))
+            st, f = _classify_once(spec, c, sv)
+            if st == V:
+                return V, f
+            if st == U:
+                best = (U, f)
+            elif best is None:
+                best = (I, f)
+        return best
+    return _classify_once(spec, c, sv)
+
+
+def _classify_once(spec, c, sv):
     f = sem.Findings()
     inds_ok = fill_indicators(sv, c)
     sem.eval_tasks(sv, c, f)
